@@ -18,8 +18,9 @@ CLAIMED = {
    technique='Lean 4 theorems (Cauchy product in K[[X]], ring laws of R[t]/(t^D), dtype table by case analysis) + differential correspondence',
    text=('Theorems for all D and all series over any field: mulS is the Cauchy product, divS the unique solution of z*y=x, commutativity/associativity/distributivity, (x/y)*y=x; over R the '
          'coefficients are the Taylor coefficients of the product/quotient curve; dtype calculus (complex in => complex out for every operator x operand kind x order) as a finite table. '
-         'Broadcasting and operand-kind dispatch are modelled (L2) and tied by the correspondence run over all kinds/orders/shape pairs/in-place and power forms; the lifting lemma from series to '
-         'broadcast arrays is not yet a theorem (partial).')),
+         'Broadcasting and operand-kind dispatch are modelled (L2) and tied by the correspondence run over all kinds/orders/shape pairs/in-place and power forms; operator-level value law for UTPM o UTPM with NumPy broadcasting of the '
+         'coefficient shapes is a theorem (result element (p, idx), order d = Taylor coefficient of the product/quotient/sum of the operand curves at the broadcast positions); constant operands (scalar, ndarray on either side), '
+         'in-place forms and powers are model + correspondence only (partial).')),
  'C10': dict(
    technique='Lean 4 theorems (zeroth coefficient of every kernel, comparison = all over zeroth coefficients, shape laws) + NumPy reference oracle',
    text=('Theorems for all D, P, shapes: zeroth coefficient of every L0 kernel is the NumPy value on zeroth coefficients (leaf or plain arithmetic) independent of higher coefficients; '
@@ -54,7 +55,7 @@ CLAIMED = {
    technique='Lean 4 theorem (cell-level tape: reverse sweep is the adjoint of the tangent sweep, any commutative ring, overwrites) + local adjoint lemmas + adjoint-identity oracle',
    text=('Theorem for every tape, heap, tangent and seed over any commutative ring (A = R[t]/(t^D)): <rev tape h seed, dh> = <seed, tan tape h dh>, with in-place overwrites (also buf[i]=buf[i]); local adjoint '
          'lemmas for add/sub/mul/truediv/scale/copy, every unary function with multiplicative tangent, sum of any arity and dot, each mirroring a pb_* formula; the series-level pullback kernels (25 unary + 4 binary, '
-         'tied to the code through the tracer by exact correspondence) are those ring expressions. The lowering of array programs to tapes is argued, not mechanised, and the matrix pullbacks have no local lemma (partial); '
+         'tied to the code through the tracer by exact correspondence) are those ring expressions. Matrix pullbacks dot, inv, solve, trace, transpose, det have their adjoint identities proved over any commutative ring and pb_dot/pb_inv/pb_solve/pb_trace/pb_det of the code are compared with exactly those formulas. The lowering of array programs to tapes is argued, not mechanised, and the factorization pullbacks (lu2/logdet, qr, cholesky, eigh, svd) have no local lemma (partial); '
          'whole programs incl. all matrix functions and factorizations are checked by the adjoint identity with forward-only tangents (degree doubling).')),
  'C04': dict(
    technique='Lean 4 corollaries of the tape adjoint theorem (gradient / vec_jac as the derivative functional at the heap point) + drivers vs forward-mode and exact analytic derivatives',
